@@ -15,6 +15,11 @@ CHECKS = {
         note="W<=4 quick / <=6 thorough; non-unit steps and bounds beyond [-W,W] judged raise-or-correct as the statement allows",
         tech="exhaustive enumeration of a bounded input box executed on the implementation, oracle = Python list semantics",
         ref="DESIGN.md 2/C03"),
+    "C10": dict(
+        text="bundle definition trees enumerated exhaustively inside stated families - flat bundles with 1..3 leaves over every assignment of 7 leaf kinds; chains of depth 2 and 3 over leaf kind x flip spelling (none / constructor flag / flipped()) x role per level; fan-out trees with 2..3 sub-bundles - each as a port and as an internal instance with every flip and role of the instance; exported ports (name, width, direction) and internal signals compared with a 20-line reference flattener",
+        note="a role-carrying leaf takes its direction from the immediately enclosing bundle instance; quick tier takes every 4th depth-3 chain and every 3rd fan tree (cap reported); the connection half is decided by C01/F4 and C05",
+        tech="exhaustive enumeration of a bounded input family executed on the implementation, oracle = reference flattener",
+        ref="DESIGN.md 2/C10"),
     "C11": dict(
         text="for every package produced by the design families, the primitive parameter space (every primitive x field x typed value), external modules with every SpiceType / port direction / parameter mix and module literals, and the example scripts: from_proto, re-export of the imported top-level modules, and protobuf equality with the original",
         note="quick tier takes a fixed arithmetic sub-sequence of the two largest families (reported as a cap)",
@@ -70,11 +75,21 @@ CHECKS = {
         note="parameter-class equality decides which calls must share a Module; two same-named Modules as parameter values and unhashable dict-parameter calls are excluded as grey",
         tech="exhaustive enumeration of value pairs and of call-order permutations (operation histories) executed on the implementation, differential oracle across histories and processes",
         ref="DESIGN.md 2/C09"),
+    "C16": dict(
+        text="depth-3 hierarchies with shared sub-modules, scalar and bus nets, internal nets at every level and primitive / external-module leaves at every level, over every assignment of each instance port to a same-width signal in scope (2 x 64 x 64, 1/4 in quick), with adversarial root-level signal names equal to flatten()'s path names; flatten(m) must contain only leaves, one per leaf device of the reference semantics, keep m's ports, and export exactly the reference leaf-level partition - or raise (only allowed for colliding names and for slices / concats / arrays)",
+        note="instance names are not adversarial (the comparison maps reference paths to ':'-joined names)",
+        tech="exhaustive enumeration of bounded design programs executed on the implementation, compared with a reference semantics",
+        ref="DESIGN.md 2/C16"),
     "C18": dict(
         text="breadth-first search over all setattr / add(named) / add(name=) operations with names {a,b} and every attribute kind on a real Module (states merged on the reference model's state, to a fixpoint) plus all un-merged histories up to length 2 (3 thorough); after every step get(), attribute access, the six views, the namespace, port visibility and parent pointers are compared with a dict model, rejected operations are tried in every state and every state is exported and compared with the reference semantics; the same for Bundles to length 3 (4); class-style vs procedural definitions over all sequences up to length 2 (3)",
         note="storing one object under two different names is outside the alphabet (unspecified behaviour)",
         tech="explicit-state breadth-first search over operation histories of the real objects with canonical state merging, invariant checked in every state against a reference model",
         ref="DESIGN.md 2/C18"),
+    "C19": dict(
+        text="Series over n in 1..4 (8 thorough) x 8 unit cells (2-4 port primitives, external module, module with bus port, module with bundle port) x every ordered pair of distinct scalar unit ports given by name and by Signal, MosStack over n, and Wrapper of every unit; the exported package's leaf-level partition, devices and ports are compared with the chain topology written directly as a design description and run through the reference semantics; series ports wider than a bit must be refused",
+        note="array elements are matched under their documented names units_k",
+        tech="exhaustive enumeration of a bounded input box executed on the implementation, oracle = reference model of the documented topology",
+        ref="DESIGN.md 2/C19"),
 }
 
 NOT_YET = {}
